@@ -108,11 +108,8 @@ static void checkBlock(const uint8_t *in, const unsigned n, const http_hdr_owner
         ls = le + 1;
     }
     const bool unambiguous = refUnambiguous(r, relaxed);
-    // KNOWN-FINDING candidate: relaxed parsing, Content-Length list with an element made only of whitespace that contains VT/FF
-    // ("Content-Length: 7,<VT>,8"): strListGetItem() reports end-of-list at that element, so ContentLengthInterpreter::checkList()
-    // never looks at the elements after it; 7 is used although a later element is garbage or a different number.
-    // Found by c26_values/list3 (relaxed=1, b=0x0b, b=0x10), natively confirmed. Exactly that input class is excluded here.
-    vf_assume(!r.vtffElement);
+    // (A list element made only of VT/FF used to end strListGetItem()'s iteration, so later values went unexamined: repaired
+    // in /repo by the 'fix: a list element made of VT/FF ended strListGetItem() iteration early' commit. No exclusion.)
 
     char buf[MAXN + 1];
     for (unsigned i = 0; i < n; ++i) buf[i] = (char)in[i];
@@ -218,7 +215,6 @@ extern "C" void c26_interp(void)
         String s;
         s.assign((const char *)v, n);
         refField(r, v, n);
-        vf_assume(!r.vtffElement);      // KNOWN-FINDING candidate, see checkBlock()
         if (clen.checkField(s)) ++kept;
     }
     const bool unambiguous = refUnambiguous(r, relaxed);
